@@ -376,11 +376,14 @@ def realEvalMacro (goal : AExpr) : Except Err Thm :=
     else .error .assertion
   | _ => .error .assertion
 
+/-- `if goal.is_not(): goal = goal.arg` -/
+def stripNeg : AExpr → AExpr
+  | .neg a => a
+  | g => g
+
 /-- Common body of `int_const_ineq_macro.eval` and `real_const_ineq_macro.eval`. -/
 def constIneqWith (T : Ty) (ev : AExpr → Except Err Num) (goal : AExpr) : Except Err Thm :=
-  let g := match goal with
-    | .neg a => a
-    | g => g
+  let g := stripNeg goal
   match g with
   | .eq _ a b =>
     if isConstant a && isConstant b && typeOf a == T then do
@@ -436,37 +439,44 @@ def evalHol (e : AExpr) : Except Err Num :=
   | .ok v => .ok v
   | .error _ => .error .approx
 
+/-- `nat_eval` as a Python number. -/
+def natEvalNum (e : AExpr) : Except Err Num := do
+  let n ← natEval e
+  .ok (.int n)
+
+/-- The evaluator `eval_inequality_expr` picks from the type of the compared terms
+(`NotImplementedError` for any type other than nat and real). -/
+def ineqEvaluator : Ty → Option (AExpr → Except Err Num)
+  | .nat => some natEvalNum
+  | .real => some evalHol
+  | _ => none
+
 /-- `ConstInequalityMacro.eval` (`const_inequality`, after fixes/C05-1): the two sides are
 evaluated at their own type — `nat_eval` for naturals, `eval_hol_expr` for reals (exact branch). -/
 def constInequalityMacro (goal : AExpr) : Except Err Thm :=
-  let body := match goal with
-    | .neg a => a
-    | g => g
-  let sideTy : Option Ty := match body with
-    | .eq _ a _ => some (typeOf a)
-    | .cmp _ _ a _ => some (typeOf a)
-    | _ => none
-  let ev : Option (AExpr → Except Err Num) := match sideTy with
-    | some .nat => some (fun e => do let n ← natEval e; .ok (.int n))
-    | some .real => some evalHol
-    | _ => none
-  match ev with
-  | none => .error .notImpl
-  | some ev =>
-    match goal with
-    | .eq _ a b => do
+  match goal with
+  | .eq _ a b =>
+    match ineqEvaluator (typeOf a) with
+    | none => .error .notImpl
+    | some ev => do
       let l ← ev a
       let r ← ev b
       if l.beq r then .ok ⟨goal⟩ else .error .assertion
-    | .neg (.eq _ a b) => do
+  | .neg (.eq _ a b) =>
+    match ineqEvaluator (typeOf a) with
+    | none => .error .notImpl
+    | some ev => do
       let l ← ev a
       let r ← ev b
       if !(l.beq r) then .ok ⟨goal⟩ else .error .assertion
-    | .cmp op _ a b => do
+  | .cmp op _ a b =>
+    match ineqEvaluator (typeOf a) with
+    | none => .error .notImpl
+    | some ev => do
       let l ← ev a
       let r ← ev b
       if cmpHolds op l r then .ok ⟨goal⟩ else .error .assertion
-    | _ => .error .notImpl
+  | _ => .error .notImpl
 
 /-- The checker's treatment of a trusted macro step: evaluate, then `check_thm_type`. -/
 def checked (m : AExpr → Except Err Thm) (goal : AExpr) : Except Err Thm := do
@@ -540,7 +550,8 @@ def cmpVal {α} [LT α] [LE α] [DecidableLT α] [DecidableLE α] (op : Cmp) (x 
   | .ge => decide (y ≤ x)
 
 /-- Typed denotation under a valuation of the atoms.  Naturals: truncated subtraction; reals are
-interpreted in ℚ with `x / 0 = 0`, `x ^ n`, and real power only at integer-valued exponents.
+interpreted in ℚ with `x / 0 = 0`, `x ^ n`, and real power only at integer-valued exponents (and at
+bases 0 and 1, where the value is rational for every exponent).
 An expression whose operators are used at a type other than the one of its operands, or at a
 non-numeric type, has no denotation. -/
 def den (ρ : Nat → Val) : AExpr → Option Val
@@ -590,7 +601,11 @@ def den (ρ : Nat → Val) : AExpr → Option Val
     | .nat, some (.n x), some (.n k) => some (.n (x ^ k))
     | .int, some (.i x), some (.n k) => some (.i (x ^ k))
     | .real, some (.q x), some (.n k) => some (.q (x ^ k))
-    | .real, some (.q x), some (.q p) => if p.den = 1 then some (.q (ratIntPow x p.num)) else none
+    | .real, some (.q x), some (.q p) =>
+      if p.den = 1 then some (.q (ratIntPow x p.num))
+      else if x = 0 then some (.q 0)          -- 0 ^ y = 0 for y ≠ 0
+      else if x = 1 then some (.q 1)          -- 1 ^ y = 1
+      else none
     | _, _, _ => none
   | .eq T a b => match T, den ρ a, den ρ b with
     | .nat, some (.n x), some (.n y) => some (.b (decide (x = y)))
